@@ -237,6 +237,9 @@ func inferEntryHeld(p *Prog, fi *FuncInfo, depth int) []Held {
 		if _, exempt := guardedExemptFor(p, caller); exempt {
 			continue
 		}
+		if strings.HasPrefix(caller.Obj.Name(), "New") && caller.Decl.Recv == nil {
+			continue // a constructor fills an object nobody else can see yet
+		}
 		calls := false
 		ast.Inspect(caller.Decl.Body, func(x ast.Node) bool {
 			if c, ok := x.(*ast.CallExpr); ok && p.callIs(caller.Pkg, c, fi.Key) {
